@@ -483,6 +483,20 @@ pub fn run(ctx: &Ctx) -> Report {
                 }
             }
         }
+        // consistent re-declarations (trace exponent +1 / +8 / +40 with every dependent number following, blow-up
+        // 1 / 16, query counts, ...): they pass configuration validation and reach the code behind it
+        for (desc, v) in crate::props::c17::redeclarations(b) {
+            if let Some(p) = proof_from_value(&v) {
+                let r = run_subject(Subject::Verify, &p, &b.layout);
+                rep.eval(&format!("redeclared:verify:{}", r.short()));
+                rep.nontrivial_case(&format!("{}|redeclared|{}", b.name, desc));
+                if let Verdict::Panic(pn) = &r {
+                    rep.violation(&format!("panic:verify:{}", pn.site()),
+                        &format!("verify panics at {}:{} ({}) - e.g. {} re-declared: {}", pn.file, pn.line, pn.msg.chars().take(80).collect::<String>(), b.name, desc),
+                        json!({"kind": "redeclared", "proof": b.name, "desc": desc}));
+                }
+            }
+        }
         let results: Vec<Option<Verdict>> = jobs.par_iter().map(|(ds, sub)| exec(b, ds, *sub)).collect();
         for ((ds, sub), v) in jobs.iter().zip(results) {
             record(&mut rep, b, ds, *sub, v);
@@ -502,6 +516,15 @@ pub fn replay(ctx: &Ctx, case: &Value) -> super::ReplayResult {
         let p = skeleton(layout, case["log_trace"].as_u64().ok_or("log_trace")?, case["cells"].as_u64().unwrap_or(15)).ok_or("no skeleton")?;
         let v = verify(&p, layout);
         return Ok((matches!(v, Verdict::Panic(_)), format!("skeleton -> {}", v.class())));
+    }
+    if case["kind"].as_str() == Some("redeclared") {
+        let name = case["proof"].as_str().ok_or("proof")?;
+        let b = bases(ctx, true).into_iter().find(|b| b.name == name).ok_or("no such base proof on this build")?;
+        let want = case["desc"].as_str().ok_or("desc")?;
+        let (_, v) = crate::props::c17::redeclarations(&b).into_iter().find(|(d, _)| d == want).ok_or("no such re-declaration")?;
+        let p = proof_from_value(&v).ok_or("untypable")?;
+        let r = run_subject(Subject::Verify, &p, &b.layout);
+        return Ok((matches!(r, Verdict::Panic(_)), format!("verify -> {}", r.class())));
     }
     if case["kind"].as_str() == Some("exponent") {
         let layout = case["layout"].as_str().ok_or("layout")?;
